@@ -496,7 +496,7 @@ structure EnvOK (E : AEnv) (env : Env) : Prop where
   proposer : E.proposer = env.proposer
   power : ∀ h a, env.power h a = E.power h a
   total : ∀ h, env.totalPower h = E.N h
-  noWrap : ∀ h, E.N h < 2 ^ 63
+  fits : ∀ h, E.N h < 2 ^ 64
   nodup : E.vals.Nodup
   zero : ∀ h a, a ∉ E.vals → E.power h a = 0
 
@@ -507,7 +507,7 @@ theorem VCJust_quorum (E : AEnv) (H : Hist) (env : Env) (ok : EnvOK E env) (wf :
     qN (E.N vc.cur) ≤ E.wsum vc.cur (fun a => VJ E H vc.cur r (some v) a t) := by
   unfold VoteCounter.hasQuorumForVote at hh
   have hqv : vc.quorumVP = qN (E.N vc.cur) := by
-    rw [hq, ok.total, qOf_eq _ (ok.noWrap _)]
+    rw [hq, ok.total, qOf_eq _ (ok.fits _)]
   have hpos : 0 < qN (E.N vc.cur) := qN_pos _ (wf.pos _)
   split at hh
   · rename_i rd hl
